@@ -38,14 +38,14 @@ enum ProbeId { P_rollover, P_rollover_all_generations_present, P_restart_on_empt
                P_restart_on_full, P_crash_in_write_call, P_crash_between_close_and_first_rename, P_crash_between_renames,
                P_crash_after_last_rename_before_open, P_crash_at_open, P_crash_outside_roll, P_torn_tail_glued,
                P_inflight_complete_after_crash, P_inflight_absent_after_crash, P_directory_created_by_policy,
-               P_max_gen_one, P_oversized_message, P_recovery_rolled_twice, P_degraded_window, P_exception_under_fault, P_files_handler_wrapper, P_long_entry };
+               P_max_gen_one, P_oversized_message, P_recovery_rolled_twice, P_degraded_window, P_exception_under_fault, P_files_handler_wrapper, P_long_entry, P_new_series_after_date_change };
 const char* const kProbeNames[] = { "rollover", "rollover_with_all_generations_present", "restart_on_empty_generation0",
                "restart_on_partly_filled_generation0", "restart_on_full_generation0", "crash_in_write_call",
                "crash_between_close_and_first_rename", "crash_between_two_renames", "crash_after_last_rename_before_open",
                "crash_at_open", "crash_outside_rollover", "torn_tail_glued_to_next_line", "inflight_message_complete_after_crash",
                "inflight_message_absent_after_crash", "directory_created_by_policy", "max_gen_one", "oversized_single_message",
                "recovery_rolled_twice", "degraded_window_after_io_error", "exception_under_fault",
-               "through_files_handler_wrapper", "entry_longer_than_1000_bytes" };
+               "through_files_handler_wrapper", "entry_longer_than_1000_bytes", "new_file_series_after_date_change" };
 
 /// formatter for the files::Handler wrapper: the message text as it is (the
 /// default formatter adds fields and a line end of its own)
@@ -98,6 +98,10 @@ struct Run
    int              torn_fragments = 0;
    uint64_t         sim_seconds = 0;
    size_t           over_long_from = 0;
+   /// file name with a date part: every date has its own series of generations
+   bool                        use_date = false;
+   std::vector< std::string>   dates;          // dates seen so far, oldest first
+   int                         cur_rank = 0;   // series the open file belongs to
 
    Run( const Json& p, Stats& s, std::string* t): plan( p), st( s), trace( t) {}
 
@@ -107,10 +111,35 @@ struct Run
       if (trace) *trace += s + "\n";
    }
 
-   std::string fileName( int gen) const
+   static std::string dateOf( int64_t t)
+   {
+      char       buf[ 32];
+      time_t     tt = static_cast< time_t>( t);
+      struct tm  tm_buf;
+      gmtime_r( &tt, &tm_buf);
+      strftime( buf, sizeof( buf), "%F", &tm_buf);
+      return buf;
+   }
+
+   /// series of the current simulated date (appended if new; the clock only
+   /// moves forward in runs with a date part)
+   int nowRank()
+   {
+      if (!use_date) return 0;
+      const std::string  d = dateOf( fs::clockNow());
+      for (size_t k = 0; k < dates.size(); ++k) if (dates[ k] == d) return static_cast< int>( k);
+      dates.push_back( d);
+      return static_cast< int>( dates.size()) - 1;
+   }
+
+   std::string fileName( int gen) const { return fileName( cur_rank, gen); }
+
+   std::string fileName( int rank, int gen) const
    {
       std::ostringstream  os;
-      os << "/simfs/" << dir << "/" << base << ".";
+      os << "/simfs/" << dir << "/" << base;
+      if (use_date) os << "-" << dates[ static_cast< size_t>( rank)];
+      os << ".";
       if (width > 0) { os.width( width); os.fill( '0'); }
       os << gen;
       os << ext;
@@ -129,6 +158,9 @@ struct Run
          break;
       case 2:
          c << std::string( "/simfs/") << fn::env_var( "SIMLOGDIR") << std::string( "/" + base + ".");
+         break;
+      case 3:
+         c << std::string( "/simfs/" + dir + "/" + base + "-") << fn::date << std::string( ".");
          break;
       default:
          c << std::string( "/simfs/" + dir + "/" + base + ".");
@@ -188,12 +220,29 @@ struct Run
       wrapped->handleMessage( lm);
    }
 
-   Files snapshot( std::vector< std::string>* strays = nullptr) const
+   Files snapshot() const { return snapshot( cur_rank); }
+
+   /// all series: the one in use with plain generation numbers, older ones
+   /// with 1000 added per step back in time (so that iterating from the
+   /// highest key down reads oldest first)
+   Files combined( const Files& current) const
+   {
+      Files  all = current;
+      for (int r = 0; r < static_cast< int>( dates.size()); ++r)
+      {
+         if (r == cur_rank) continue;
+         for (auto const& kv : snapshot( r))
+            all[ kv.first + 1000 * (cur_rank - r)] = kv.second;
+      }
+      return all;
+   }
+
+   Files snapshot( int rank, std::vector< std::string>* strays = nullptr) const
    {
       Files  f;
       std::map< std::string, int>  names;
       for (int g = 0; g < max_gen + 4; ++g)
-         names[ fileName( g)] = g;
+         names[ fileName( rank, g)] = g;
       for (auto const& path : fs::listFiles( "/simfs/" + dir))
       {
          auto  it = names.find( path);
@@ -237,11 +286,12 @@ struct Run
    // ---------------------------------------------------------- invariants
 
    /// limits (I2) and naming (I4: no generation beyond max_gen - 1)
-   void checkLimits( const Files& f, const char* when)
+   void checkLimits( const Files& current, const char* when)
    {
+      const Files  f = combined( current);
       for (auto const& kv : f)
       {
-         if (kv.first >= max_gen)
+         if (kv.first % 1000 >= max_gen && kv.first >= 0)
          {
             res.fail( "VIOLATION", "I4-retention", std::string( when) + ": generation file " + std::to_string( kv.first)
                + " exists although only " + std::to_string( max_gen) + " generations are kept;" + describe( f));
@@ -269,8 +319,9 @@ struct Run
    /// I1: lines on disk, oldest generation first, are messages that were
    /// written, each at most once, in the order written, without holes other
    /// than those an injected fault explains, ending with the newest one.
-   void checkContent( const Files& f, const char* when, bool strict_tail)
+   void checkContent( const Files& current, const char* when, bool strict_tail)
    {
+      const Files  f = combined( current);
       struct Ln { std::string text; bool terminated; int gen; long long id; };
       std::vector< Ln>  lines;
       for (auto it = f.rbegin(); it != f.rend(); ++it)
@@ -332,7 +383,10 @@ struct Run
                + std::to_string( last_id) + ");" + describe( f));
             return;
          }
-         if (last_id >= 0)
+         // (retention is per series: at the border between the files of two
+         // dates the older generations of the newer date may be gone already)
+         const bool  series_border = (k > 0) && (lines[ k - 1].gen / 1000 != l.gen / 1000);
+         if (last_id >= 0 && !series_border)
             for (long long h = last_id + 1; h < l.id; ++h)
                if (!msgs[ static_cast< size_t>( h)].may_be_missing && !msgs[ static_cast< size_t>( h)].crashed)
                {
@@ -482,6 +536,43 @@ struct Run
       res.fail( "VIOLATION", "I1-step", std::string( when) + ": the files after the operation are neither the old files plus the message nor a correct roll-over; before:"
          + describe( before) + " after:" + describe( after) + (msg ? " message: '" + *msg + "'" : std::string( " (re-open)")));
       return false;
+   }
+
+   /// Step relation for one fault-free operation, aware of the date part: the
+   /// library computes the file name when it (re)opens, so a change of date
+   /// takes effect at the next roll-over or restart and starts a new series.
+   /// before/after: series in use before the operation; new_before: the series
+   /// of the current date before the operation. Returns true if a new
+   /// generation was started.
+   bool step( const Files& before, const Files& new_before, int rank_now, const std::string* msg, const char* when)
+   {
+      if (rank_now == cur_rank)
+         return checkTransition( before, snapshot(), msg, when);
+      const Files        after = snapshot();
+      const std::string  add = msg ? *msg + "\n" : std::string();
+      const std::string  b0 = before.count( 0) ? before.at( 0) : std::string();
+      if (msg && after.count( 0) && after.at( 0) == b0 + add && snapshot( rank_now) == new_before)
+      {
+         // still writing to the file that was opened before the date changed
+         return checkTransition( before, after, msg, when);
+      }
+      if (after != before)
+      {
+         res.fail( "VIOLATION", "I1-step", std::string( when) + ": the date changed, but the files of the old date were modified by other than an append; before:"
+            + describe( before) + " after:" + describe( after));
+         return false;
+      }
+      if (msg && before.count( 0) && !isFull( b0, msg->size()))
+      {
+         res.fail( "VIOLATION", "I3-premature-generation", std::string( when) + ": a file for the new date was started by a message although generation 0 of the old date could still take it; before:"
+            + describe( before));
+         return false;
+      }
+      st.probe( P_new_series_after_date_change);
+      cur_rank = rank_now;
+      checkTransition( new_before, snapshot(), msg, when);
+      if (msg) { ++rolls_seen; st.probe( P_rollover); }
+      return msg != nullptr;
    }
 
    /// all lines, oldest generation first (each with its terminator state)
@@ -674,6 +765,7 @@ struct Run
          res.fail( "VIOLATION", "L1-recovery", std::string( when) + ": re-opening after a crash failed: " + what + ";" + describe( snapshot()));
          return false;
       }
+      cur_rank = nowRank();   // the new process opened the file of the current date
       const Files  f = snapshot();
       // with a single generation every roll-over drops all older messages
       // before the new one is on disk, and a file found full is emptied by
@@ -698,11 +790,13 @@ struct Run
       name_variant = static_cast< int>( nm.geti( "variant", 0));
       precreate = nm.geti( "precreate", 1) != 0;
       wrapper = plan.geti( "wrapper", 0) != 0;
+      use_date = (name_variant == 3);
       if (wrapper) st.probe( P_files_handler_wrapper);
       if (max_gen == 1) st.probe( P_max_gen_one);
 
       fs::reset();
       fs::traceTo( trace);
+      if (use_date) { dates.clear(); cur_rank = nowRank(); }
       fs::envSet( "SIMLOGDIR", dir);
       if (precreate) fs::mkdirs( "/simfs/" + dir);
       log( std::string( "config ") + (counted ? "counted" : "maxsize") + " limit=" + std::to_string( limit) + " max_gen="
@@ -745,7 +839,8 @@ struct Run
          const std::string   when = "op " + std::to_string( oi) + " " + kind;
          if (kind == "clock")
          {
-            const long long  dt = op.geti( "dt", 1);
+            long long  dt = op.geti( "dt", 1);
+            if (use_date && dt < 0) dt = -dt;   // series are ordered by date: no way back
             fs::clockAdvance( dt);
             if (dt > 0) sim_seconds += static_cast< uint64_t>( dt);
             if (dt < 0 || dt > 86400) st.fault( F_clock_jump);
@@ -754,6 +849,8 @@ struct Run
          }
          const std::vector< fs::Fault>  faults = faultsOf( op);
          const Files                    before = snapshot();
+         const int                      rank_now = nowRank();
+         const Files                    new_before = snapshot( rank_now);
          fs::OpReport                   rep;
          std::string                    what;
          bool                           threw = false;
@@ -778,10 +875,11 @@ struct Run
                return;
             }
             if (threw) st.probe( P_exception_under_fault);
-            const Files  after = snapshot();
-            checkLimits( after, when.c_str());
             if (err)
             {
+               if (!threw) cur_rank = rank_now;   // re-opened under the name of the current date
+               const Files  after = snapshot();
+               checkLimits( after, when.c_str());
                degraded = true;
                st.probe( P_degraded_window);
                if (renameFaultFired( rep)) renameFailed();
@@ -791,14 +889,19 @@ struct Run
                // a clean restart ends a degraded window
                if (degraded)
                {
+                  cur_rank = rank_now;
+                  const Files  after = snapshot();
+                  checkLimits( after, when.c_str());
                   degraded = false;
                   if (max_gen == 1 && (!after.count( 0) || after.at( 0).empty()))
                      allowLossOfAll();
                   checkContent( after, when.c_str(), false);
                } else
                {
-                  if (checkTransition( before, after, nullptr, when.c_str()) && max_gen == 1)
+                  if (step( before, new_before, rank_now, nullptr, when.c_str()) && max_gen == 1)
                      allowLossOfAll();
+                  const Files  after = snapshot();
+                  checkLimits( after, when.c_str());
                   checkContent( after, when.c_str(), true);
                }
             }
@@ -854,6 +957,8 @@ struct Run
          }
          if (threw) st.probe( P_exception_under_fault);
          cur.acked = !threw;
+         if ((err || degraded) && rank_now != cur_rank && snapshot( rank_now) != new_before)
+            cur_rank = rank_now;   // a roll-over moved on to the files of the current date
          const Files  after = snapshot();
          if (err || degraded)
          {
@@ -869,17 +974,19 @@ struct Run
             checkContent( after, when.c_str(), false);
             continue;
          }
-         checkLimits( after, when.c_str());
+         step( before, new_before, rank_now, &cur.text, when.c_str());
          if (!res.ok()) return;
-         checkTransition( before, after, &cur.text, when.c_str());
+         checkLimits( snapshot(), when.c_str());
          if (!res.ok()) return;
-         checkContent( after, when.c_str(), true);
+         checkContent( snapshot(), when.c_str(), true);
       }
       if (!res.ok()) return;
 
       // L1: after the last fault a fresh process opens the files and makes progress
       {
          const Files   before = snapshot();
+         const int     rank_now = nowRank();
+         const Files   new_before = snapshot( rank_now);
          fs::OpReport  rep;
          std::string   what;
          bool          threw = false;
@@ -890,10 +997,14 @@ struct Run
             res.fail( "VIOLATION", "L1-recovery", "final re-open failed: " + what + ";" + describe( before));
             return;
          }
+         if (!degraded)
+         {
+            if (step( before, new_before, rank_now, nullptr, "final restart") && max_gen == 1)
+               allowLossOfAll();
+         } else
+            cur_rank = rank_now;
          const Files  after = snapshot();
          checkLimits( after, "final restart");
-         if (!degraded && checkTransition( before, after, nullptr, "final restart") && max_gen == 1)
-            allowLossOfAll();
          if (degraded && max_gen == 1 && (!after.count( 0) || after.at( 0).empty()))
             allowLossOfAll();
          checkContent( after, "final restart", !degraded);
@@ -963,7 +1074,8 @@ public:
       nm[ "base"] = cfg.chance( 1, 2) ? "app" : "x.y";
       nm[ "ext"] = cfg.chance( 1, 2) ? ".log" : "";
       nm[ "width"] = cfg.chance( 1, 2) ? 0 : cfg.range( 1, 3);
-      nm[ "variant"] = cfg.range( 0, 2);
+      // variant 3: date part in the file name (a new series of generations per date)
+      nm[ "variant"] = cfg.chance( 1, 7) ? 3 : cfg.range( 0, 2);
       nm[ "precreate"] = cfg.chance( 3, 4);
       plan[ "name"] = nm;
       // "var/log" needs two levels: the policy creates one level only
@@ -981,7 +1093,7 @@ public:
       {
          Json            op = Json::object();
          const unsigned  w = static_cast< unsigned>( wl.below( 20));
-         if (w == 0)
+         if (w == 0 || (w <= 2 && nm.geti( "variant") == 3))
          {
             op[ "op"] = "clock";
             static const long long  dts[] = { 1, 60, 3600, 86400, 90000, -3600, 604800 };
